@@ -55,8 +55,10 @@ def asbuilt():
 def seeded():
     resp = os.path.join(here, "seeded", "RESULTS.json")
     res = json.load(open(resp)) if os.path.exists(resp) else {}
-    rows = ["| seeded change | property | what it does | needs, to manifest | caught by | VIOLATION line |",
-            "|---------------|----------|--------------|--------------------|-----------|----------------|"]
+    hp = os.path.join(here, "seeded", "HISTORY.json")
+    hist = json.load(open(hp)) if os.path.exists(hp) else {}
+    rows = ["| seeded change | property | what it does | needs, to manifest | caught by | history |",
+            "|---------------|----------|--------------|--------------------|-----------|---------|"]
     n = c = 0
     for d in sorted(glob.glob(os.path.join(here, "seeded", "s_*"))):
         sid = os.path.basename(d)
@@ -76,8 +78,12 @@ def seeded():
         rows.append("| %s | %s | %s | %s | %s | %s |" % (
             sid, m.get("property"), esc(m.get("summary", ""))[:300], esc(m.get("needs_to_manifest", ""))[:200],
             ", ".join(caught) if caught else ("**missed**" if r else "not run yet"),
-            "`%s`" % esc(vio)[:160] if vio else ""))
-    return "%d confirmed seeded changes, %d caught by the check of their property (quick tier).\n\n" % (n, c) + "\n".join(rows)
+            esc(hist.get(sid, "caught by the check as first built"
+                         + (" (`no-failing-input-found`: tie/proof broke, search found no input)" if "no-failing-input-found" in vio else "")))))
+    nm = sum(1 for k in hist if k in res)
+    return ("%d confirmed seeded changes; %d are caught by the check of their property (quick tier, seed 0) as the checks stand now; "
+            "%d of them were MISSED when first run and led to the strengthening described in the last column.\n\n" % (n, c, nm)
+            + "\n".join(rows))
 
 
 def main():
